@@ -167,11 +167,37 @@ Definition ta_release (t : tree) (s : st) (cid : nat) : st :=
     set_grants s2 (delete cid (grants s2))
   end.
 
+(* supply.Reserve: reinstate a saved grant (restart, accepted reconfiguration) *)
+Definition ta_reserve (t : tree) (s : st) (cid : nat) (g : grant) : res st :=
+  let p := g_pool g in
+  match g_type g with
+  | CpuNormal =>
+    let iso := g_excl g ∩ p_iso (pool_at t p) in
+    let ex := g_excl g ∖ iso in
+    if negb (subseteqb iso (free_iso s p)) then Err (ErrGuard 6)
+    else if negb (subseteqb ex (free_shar s p)) then Err (ErrGuard 7)
+    else if alloc_shared t s p <? 1000 * csize ex + g_portion g then Err ErrNoCapacity
+    else
+      let s1 := account_alloc t s p (g_excl g) in
+      Ok (set_grants (add_shared s1 p (g_portion g)) (<[cid := g]> (grants s1)))
+  | CpuReserved =>
+    let sp := 1000 * csize (g_excl g) + g_portion g in
+    if (0 <? sp) && (alloc_reserved t s p <? sp) then Err ErrNoCapacity
+    else
+      let s1 := account_alloc t s p (g_excl g) in
+      Ok (set_grants (add_reserved s1 p sp) (<[cid := g]> (grants s1)))
+  | CpuPreserve =>
+    let s1 := account_alloc t s p (g_excl g) in
+    Ok (set_grants s1 (<[cid := g]> (grants s1)))
+  end.
+
 (* one policy-level operation, as observed through the harness *)
 Inductive op :=
 | OAlloc (cid : nat) (r : creq) (p : nat) (X : cset)   (* AllocateResources succeeded with this choice *)
 | OAllocFail (cid : nat)                               (* AllocateResources failed: state unchanged *)
-| ORelease (cid : nat).                                (* ReleaseResources *)
+| ORelease (cid : nat)                                 (* ReleaseResources *)
+| OReserve (cid : nat) (g : grant)                     (* supply.Reserve: a saved grant reinstated verbatim *)
+| OReset.                                              (* (re)configuration / restart: pristine state *)
 
 Definition step (t : tree) (s : st) (o : op) : res st :=
   match o with
@@ -182,6 +208,12 @@ Definition step (t : tree) (s : st) (o : op) : res st :=
     end
   | OAllocFail _ => Ok s
   | ORelease cid => Ok (ta_release t s cid)
+  | OReserve cid g =>
+    match grants s !! cid with
+    | Some _ => Err (ErrGuard 4)
+    | None => if g_pool g <? length t then ta_reserve t s cid g else Err (ErrGuard 5)
+    end
+  | OReset => Ok (init t)
   end%nat.
 
 Fixpoint run (t : tree) (s : st) (os : list op) : res st :=
@@ -277,3 +309,30 @@ Definition capacity_okb (t : tree) (s : st) : bool :=
 Definition desc_safeb (t : tree) (s : st) (p : nat) (X : cset) : bool :=
   forallb (fun d => negb (anc t p d) || Nat.eqb d p ||
                     (granted_sub t (gr_shared s) d <=? 1000 * csize (free_shar s d ∖ X))) (pools t).
+
+(* a history may span several configurations / restarts: one segment per pool tree *)
+Fixpoint check_segments (i : nat) (segs : list (tree * list (list op * obs))) : option (nat * mismatch) :=
+  match segs with
+  | [] => None
+  | (t, tr) :: segs' =>
+    if negb (tree_wfb t) then Some (i, MStep 0 (ErrGuard 9))
+    else match check_trace t (init t) 0 tr with
+         | Some m => Some (i, m)
+         | None => check_segments (S i) segs'
+         end
+  end.
+
+(* guards evaluated along a trace: returns the (segment-local) indices of event groups in which an
+   exclusive allocation violated desc_safe (the K2 guard) *)
+Fixpoint guard_trace (t : tree) (s : st) (i : nat) (tr : list (list op * obs)) : list nat :=
+  match tr with
+  | [] => []
+  | (os, _) :: tr' =>
+    let bad := existsb (fun o => match o with
+                                 | OAlloc _ _ p X => negb (bool_decide (X = ∅)) && negb (desc_safeb t s p X)
+                                 | _ => false end) os in
+    match run t s os with
+    | Err _ => []
+    | Ok s' => (if bad then [i] else []) ++ guard_trace t s' (S i) tr'
+    end
+  end.
